@@ -67,6 +67,7 @@ def body_factory(ctx):
                                  "shuffled" if (case["randomize"] and case["path"] != "mem") else "in_order",
                                  "accepted:%s" % ("1" if len(pos_all) == 1 else ("all" if len(pos_all) == len(order) else "some")),
                                  "n_linear=%d" % case["n_linear"],
+                                 "library in internal units" if not case.get("lib_units") else "library in other units",
                                  "n_prior<N" if (case["n_prior"] and case["n_prior"] < case["n"] and case["path"] != "mem") else "n_prior=N"])
 
     return body
@@ -75,7 +76,7 @@ def body_factory(ctx):
 # ----------------------------------------------------------------------------- end to end with the real kernel
 @st.composite
 def real_cases(draw):
-    spec = draw(gens.problems(max_surveys=2, max_epochs=6, max_poly=2, n_rows=(2, 40), units=False))
+    spec = draw(gens.problems(max_surveys=2, max_epochs=6, max_poly=2, n_rows=(2, 40), units=draw(st.booleans())))
     spec["path"] = draw(st.sampled_from(["mem", "cache", "file"]))
     n = len(spec["rows"])
     spec["opts"] = {"n_prior": draw(st.one_of(st.none(), st.integers(1, n))),
@@ -135,11 +136,14 @@ def real_body_factory(ctx):
         if len(out) != len(rows):
             raise Violation("number of returned rows differs from the acceptance rule applied to the captured draws",
                             got=len(out), want=len(rows))
+        du = og.unit(spec["surveys"][0]["unit"])
+        internal = {"P": u.day, "e": u.one, "omega": u.rad, "M0": u.rad, "s": du}
         for nm in ("P", "e", "omega", "M0", "s"):
-            got = out[nm].to_value(smp[nm].unit)
-            if not np.array_equal(got, smp[nm].value[rows]):
+            got = out[nm].to_value(internal[nm])
+            exp = smp[nm].to_value(internal[nm])[rows]
+            if not np.allclose(got, exp, rtol=4e-15, atol=0):
                 raise Violation("returned %s values are not the unmodified library values in evaluation order" % nm,
-                                got=got[:8], want=smp[nm].value[rows][:8])
+                                got=got[:8], want=exp[:8], library_unit=str(smp[nm].unit))
         nt = 1 < len(pos_all) < len(order) or len(pos) < len(pos_all) or (o["randomize"] and spec["path"] != "mem")
         ctx.note_case(spec, nt, ["real:path:" + spec["path"], "real:accepted:%s" % ("1" if len(pos_all) == 1 else "some")])
 
